@@ -497,7 +497,7 @@ func TestP4Composite(t *testing.T) {
 	defer rec.Finish(t)
 	rec.Rule("random composite names: 1-5 components (glyph-list names incl. multi-code-point entries, dingbat names, uni/u forms valid and invalid, unknown and empty components) joined by '_', optional '.suffix' (which may itself contain '_' and '.'), dingbats flag random; compared with the harness's own implementation of the AGL specification algorithm. Non-trivial: >= 2 components or a suffix.")
 	multi, tcomma := multiBug(rec), tcommaBug(rec)
-	ev.SetupRapid(120000, 8000000)
+	ev.SetupRapid(500000, 24000000)
 	rapid.Check(t, func(t *rapid.T) {
 		n := rapid.IntRange(1, 5).Draw(t, "n")
 		parts := make([]string, n)
@@ -573,7 +573,7 @@ func TestP5IsValid(t *testing.T) {
 			try(strings.Repeat("a", n-1) + "é")
 		}
 	}
-	ev.SetupRapid(60000, 3000000)
+	ev.SetupRapid(300000, 9000000)
 	rapid.Check(t, func(t *rapid.T) {
 		n := rapid.IntRange(0, 33).Draw(t, "len")
 		b := make([]byte, 0, n+2)
